@@ -83,10 +83,15 @@ func rotateScenario(w *world) engine.Scenario {
 	return engine.Scenario{Name: name, Bound: -1, Fn: func(c *engine.Chooser) {
 		w.ensure(c)
 		ki := c.Choose(len(ks)+1, "k")
-		uni.Seed(c, name, ki)
+		coeff := c.Choose(2, "domain") == 1
+		uni.Seed(c, name, ki, coeff)
 		re, im := w.ramp()
+		c.Cover("domain", map[bool]string{false: "ntt", true: "coefficient"}[coeff])
 		c.Cover("scheme", w.scheme+"-"+rtName(w.rt))
 		c.Cover("np", fmt.Sprint(w.np))
+		if w.keyLP != -2 {
+			c.Cover("keys", "reduced-level")
+		}
 		if w.gap > 1 {
 			c.Cover("bgv-plaintext-ring", "smaller")
 		}
@@ -103,7 +108,7 @@ func rotateScenario(w *world) engine.Scenario {
 			}
 			g := w.rp.GaloisElementOrderTwoOrthogonalSubgroup()
 			o := w.newOps([]uint64{g})
-			ct := w.encrypt(re, im)
+			ct := w.encryptIn(re, im, coeff)
 			out := ct.CopyNew()
 			if err, pan := uni.Try(func() error { return o.conj(ct, out) }); err != nil || pan != nil {
 				c.Fail("C11/"+w.scheme+"/conjugate/failed-with-advertised-key", "%s: err=%v panic=%v", w.name, err, pan)
@@ -125,7 +130,7 @@ func rotateScenario(w *world) engine.Scenario {
 		k := ks[ki]
 		g := w.rp.GaloisElement(k)
 		o := w.newOps([]uint64{g})
-		ct := w.encrypt(re, im)
+		ct := w.encryptIn(re, im, coeff)
 		wr, wi := rotRows(re, w.rowLen, k), rotRows(im, w.rowLen, k)
 		cls := kClass(k, w.rowLen)
 		c.Note("k=%d galEl=%d class=%s", k, g, cls)
@@ -164,7 +169,7 @@ func rotateScenario(w *world) engine.Scenario {
 		}
 		// hoisted variants: only on parameter sets with an auxiliary modulus (statement)
 		if w.np > 0 {
-			if o.hoisted != nil {
+			if o.hoisted != nil && w.keyLevelP() == w.np-1 {
 				var m map[int]*rlwe.Ciphertext
 				if err, pan := uni.Try(func() (e error) { m, e = o.hoisted(ct, []int{k}); return }); err != nil || pan != nil {
 					c.Fail("C11/"+w.scheme+"/rotateHoisted/failed-with-advertised-key", "%s: k=%d err=%v panic=%v", w.name, k, err, pan)
@@ -179,7 +184,7 @@ func rotateScenario(w *world) engine.Scenario {
 			// AutomorphismHoisted with an explicit decomposition
 			outH := ct.CopyNew()
 			if err, pan := uni.Try(func() error {
-				o.rl.DecomposeNTT(ct.Level(), w.np-1, w.np, ct.Value[1], ct.IsNTT, o.rl.BuffDecompQP)
+				o.rl.DecomposeNTT(ct.Level(), w.keyLevelP(), w.keyLevelP()+1, ct.Value[1], ct.IsNTT, o.rl.BuffDecompQP)
 				return o.rl.AutomorphismHoisted(ct.Level(), ct, o.rl.BuffDecompQP, g, outH)
 			}); err != nil || pan != nil {
 				c.Fail("C11/"+w.scheme+"/automorphismHoisted/failed-with-advertised-key", "%s: k=%d err=%v panic=%v", w.name, k, err, pan)
@@ -195,12 +200,60 @@ func rotateScenario(w *world) engine.Scenario {
 				return
 			}
 			if k != 0 {
-				if !w.compare(c, "C11/"+w.scheme+"/rotateHoistedLazy/value", m[k], wr, wi, nil, one) {
+				sig := "C11/" + w.scheme + "/rotateHoistedLazy/value"
+				if coeff {
+					// RotateHoistedLazyNew allocates its results flagged NTT whatever the domain of the input (FINDINGS.md #7)
+					sig = "C11/RotateHoistedLazyNew/coefficient-domain-input/value"
+				}
+				if !w.compare(c, sig, m[k], wr, wi, nil, one) {
 					return
 				}
 			}
 			c.Cover("rotate", "hoisted-lazy")
 			c.Count(2)
+		}
+		// the refusal side: with a key for another element only, every entry point must return an error (no panic, no
+		// result); a degree-2 input is refused too ("will return an error if either ctIn or opOut degree is not equal to 1")
+		if g2 := w.rp.GaloisElement(k + 1); g != 1 && g2 != g {
+			o2 := w.newOps([]uint64{g2})
+			refuse := func(what string, f func() error) bool {
+				err, pan := uni.Try(f)
+				if pan != nil || err == nil {
+					c.Fail("C11/"+w.scheme+"/"+what+"/missing-key-not-refused", "%s: k=%d, only the key for galEl %d exists: err=%v panic=%v", w.name, k, g2, err, pan)
+					return false
+				}
+				return true
+			}
+			tmp := ct.CopyNew()
+			if !refuse("rotate", func() error { return o2.rotate(ct, k, tmp) }) ||
+				!refuse("automorphism", func() error { return o2.rl.Automorphism(ct, g, tmp) }) {
+				return
+			}
+			if w.np > 0 {
+				lp := w.keyLevelP()
+				if !refuse("automorphismHoisted", func() error {
+					o2.rl.DecomposeNTT(ct.Level(), lp, lp+1, ct.Value[1], ct.IsNTT, o2.rl.BuffDecompQP)
+					return o2.rl.AutomorphismHoisted(ct.Level(), ct, o2.rl.BuffDecompQP, g, tmp)
+				}) || !refuse("rotateHoistedLazy", func() error { _, e := o2.hoistedLazy(ct, []int{k}); return e }) {
+					return
+				}
+				if o2.hoisted != nil && lp == w.np-1 {
+					if !refuse("rotateHoisted", func() error { _, e := o2.hoisted(ct, []int{k}); return e }) {
+						return
+					}
+				}
+			}
+			c.Cover("refusal", "missing-key")
+		}
+		if g != 1 {
+			d2 := ct.CopyNew()
+			d2.Resize(2, d2.Level())
+			tmp := ct.CopyNew()
+			if err, pan := uni.Try(func() error { return o.rotate(d2, k, tmp) }); pan != nil || err == nil {
+				c.Fail("C11/"+w.scheme+"/rotate/degree-2-input-not-refused", "%s: k=%d err=%v panic=%v", w.name, k, err, pan)
+				return
+			}
+			c.Cover("refusal", "degree-2-input")
 		}
 		c.Cover("rotate", "plain")
 		c.Cover("k", cls)
@@ -291,7 +344,7 @@ func lateKeysScenario(w *world) engine.Scenario {
 		if w.np > 0 {
 			outH := ct.CopyNew()
 			if err, pan := uni.Try(func() error {
-				o.rl.DecomposeNTT(ct.Level(), w.np-1, w.np, ct.Value[1], ct.IsNTT, o.rl.BuffDecompQP)
+				o.rl.DecomposeNTT(ct.Level(), w.keyLevelP(), w.keyLevelP()+1, ct.Value[1], ct.IsNTT, o.rl.BuffDecompQP)
 				return o.rl.AutomorphismHoisted(ct.Level(), ct, o.rl.BuffDecompQP, g, outH)
 			}); err != nil || pan != nil {
 				c.Fail(sig+"/hoisted-failed", "%s: AutomorphismHoisted with a late key: err=%v panic=%v", w.name, err, pan)
